@@ -7,9 +7,92 @@ import toasty.pyramid as tp
 from vlib import chx
 
 HARNESS = os.path.join(os.path.dirname(__file__), "chx_C17.py")
-QUICK = [("chk_template_matches_path", 170), ("chk_tile_path_renders_position", 170), ("chk_distinct_positions_distinct_paths", 170),
-         ("chk_builder_records_pio", 40), ("chk_toast_base_records_depth", 90), ("chk_reuse_history", 170)]
-THOROUGH = [(n, t * 6) for n, t in QUICK]
+QUICK = [("chk_template_matches_path_lyyx", 170, {"quiet": True}), ("chk_template_matches_path_lxy", 170, {"quiet": True}), ("chk_tile_path_renders_position", 170),
+         ("chk_builder_records_pio", 40), ("chk_toast_base_records_depth", 90)]
+THOROUGH = [(c[0], c[1] * 4) + tuple(c[2:]) for c in QUICK]
+
+
+def template_injective(run, scheme):
+    """z3 (strings): the WWT expansion of the template the REAL PyramidIO records is injective on decimal renderings."""
+    import time
+    import z3
+    pio = tp.PyramidIO("/base", scheme=scheme, default_format="png")
+    template = pio.get_path_scheme() + ".png"
+    digits = z3.Plus(z3.Range("0", "9"))
+    names = {}
+
+    def expand(tag):
+        parts = []
+        rest = template
+        while rest:
+            k = min([rest.find(ph) for ph in ("{1}", "{2}", "{3}") if rest.find(ph) >= 0] or [-1])
+            if k < 0:
+                parts.append(z3.StringVal(rest))
+                break
+            if k > 0:
+                parts.append(z3.StringVal(rest[:k]))
+            ph = rest[k:k + 3]
+            v = z3.String("%s_%s" % (tag, ph[1]))
+            names[(tag, ph[1])] = v
+            parts.append(v)
+            rest = rest[k + 3:]
+        return z3.Concat(*parts) if len(parts) > 1 else parts[0]
+
+    e1, e2 = expand("a"), expand("b")
+    s = z3.Solver()
+    s.set("timeout", 120000)
+    for v in names.values():
+        s.add(z3.InRe(v, digits), z3.Length(v) <= 6)
+    if not all((t, k) in names for t in "ab" for k in "123"):
+        run.violation("template-injective[%s]" % scheme, "pyramid.py:template-lacks-placeholder:%s" % scheme, "URL template %r does not use all of level, x and y" % template,
+                      "raise SystemExit(1)\n", "E1:z3-strings")
+        return
+    s.add(e1 == e2, z3.Or(*[names[("a", k)] != names[("b", k)] for k in "123"]))
+    t0 = time.time()
+    r = str(s.check())
+    dt = time.time() - t0
+    nm = "template-injective[%s]" % scheme
+    if r == "unsat":
+        run.ob(nm, "unsat", "E1:z3-strings", "expansion of %r is injective on decimal strings of <= 6 digits" % template, queries=1, solver_s=dt)
+    elif r == "sat":
+        m = s.model()
+        a = [m.eval(names[("a", k)]).as_string() for k in "123"]
+        b = [m.eval(names[("b", k)]).as_string() for k in "123"]
+        pa = pio._tile_path(a[0], a[1], a[2], makedirs=False)
+        pb = pio._tile_path(b[0], b[1], b[2], makedirs=False)
+        if pa == pb:
+            run.violation(nm, "pyramid.py:tile-path-collision:%s" % scheme, "distinct positions %r and %r are written to the same path %s" % (a, b, pa),
+                          "import sys\nfrom toasty.pyramid import PyramidIO\np = PyramidIO('/base', scheme=%r, default_format='png')\nsys.exit(1 if p._tile_path(*%r, makedirs=False) == p._tile_path(*%r, makedirs=False) else 0)\n" % (scheme, a, b), "E1:z3-strings")
+        else:
+            run.error(nm, "template collision %r / %r does not reproduce on the real paths" % (a, b))
+    else:
+        run.ob(nm, "inconclusive", "E1:z3-strings", "solver %s" % r, queries=1, solver_s=dt)
+
+
+def reuse_histories(run):
+    """Every history of FitsTiler.tile() calls on one output directory (finite: fresh / repeated / repeated with
+    override, TAN / TOAST): executed for real (real WTML writer and parser, scratch directory)."""
+    import importlib.util
+    spec = importlib.util.spec_from_file_location("chx_C17_exec", HARNESS)
+    mod = importlib.util.module_from_spec(spec)
+    spec.loader.exec_module(mod)
+    for toast in (False, True):
+        for history in (0, 1, 2):
+            for levels in (0, 4):
+                nm = "reuse-history[%s,%s,levels=%d]" % ("TOAST" if toast else "TAN", ["fresh", "reused", "override"][history], levels)
+                try:
+                    ok = mod.chk_reuse_history(toast, history, levels)
+                    err = None
+                except Exception as e:
+                    ok, err = False, "%s: %s" % (type(e).__name__, e)
+                if ok:
+                    run.ob(nm, "confirmed", "execution", "returned builder == index_rel.wtml (tile levels, URL, file type, astrometry)")
+                    run.replays += 1
+                else:
+                    sig = "fits_tiler.py:FitsTiler.tile:reuse-returns-unpopulated-builder" if history == 1 else "fits_tiler.py:FitsTiler.tile:%s" % nm
+                    run.violation(nm, sig, "FitsTiler.tile(): the returned builder disagrees with the index_rel.wtml in the output directory (%s)%s" % (nm, (" -- " + err) if err else ""),
+                                  "import sys\nsys.path.insert(0, %r)\nimport importlib.util\nspec = importlib.util.spec_from_file_location('h', %r)\nh = importlib.util.module_from_spec(spec); spec.loader.exec_module(h)\n"
+                                  "sys.exit(0 if h.chk_reuse_history(%r, %r, %r) else 1)\n" % (str(__import__("vlib.core").core.VERIF), HARNESS, toast, history, levels), "execution")
 
 
 def check(run):
@@ -22,3 +105,6 @@ def check(run):
                "tile_levels = depth of the deepest populated layer is established by C08 / C09 / C06 for the study, multi-TAN and TOAST writers")
     run.outside("the WWT client's real template expansion", "HiPS output (external hipsgen tool)", "the pipeline workflows' WTML (same Builder code)")
     chx.run_conditions(run, HARNESS, THOROUGH if run.tier == "thorough" else QUICK)
+    for scheme in ("L/Y/YX", "LXY"):
+        template_injective(run, scheme)
+    reuse_histories(run)
